@@ -9,8 +9,9 @@ GO=/opt/veriftools/go1.26.8/bin/go
 mkdir -p "$HERE/bin" "$HERE/evidence" "$HERE/replays"
 cd "$HERE/sim" || exit 2
 "$GO" build -o "$HERE/bin/verif" ./cmd/verif || exit 2
-"$GO" vet ./core ./simio ./ref ./worlds ./cmd/... || exit 2
+"$GO" vet ./core ./simio ./ref ./worlds ./instrument ./cmd/... || exit 2
 "$GO" test -count=1 -run 'TestSelf' ./worlds || exit 2
+PATH="$(dirname "$GO"):$PATH" "$GO" test -count=1 ./instrument || exit 2
 # warm the race-enabled build of the instrumented driver (first build compiles the race runtime)
 VERIF_RUNS=32 "$HERE/bin/verif" check C17 quick >/dev/null 2>&1 || { echo "setup: C17 warm-up run failed (exit $?)" >&2; }
 echo "setup ok"
